@@ -93,7 +93,7 @@ def run(chk, replay=None):
     os.environ["_JAVA_OPTIONS"] = ((saved + " ") if saved else "") + "-Djava.io.tmpdir=" + jt
     try:
         # ---- model -> code
-        vlib.replay_cases(chk, "C15Cases", vlib.cfg("C15_cases_%s.cfg" % tier, SEED=seed), "c15.cases", "cases_replay", opts={"revpass": 1}, timeout=1800)
+        vlib.replay_cases(chk, "C15Cases", vlib.cfg("C15_cases_%s.cfg" % tier, SEED=seed), "c15.cases", "cases_replay", opts={"revpass": 1, "arena": 1}, timeout=1800)
         chk.cov["exhaustive"] = True      # the boundary families are complete; random values are sampled
         # ---- code -> model
         trace, res = os.path.join(d, "trace.ndjson"), os.path.join(d, "rec.res")
